@@ -289,6 +289,11 @@ def check_rc(rep, ix):
         ok = isinstance(sv, StructVal) and sizes.get(code) == sv.size
         rep.ob('R-C06-RC', f'{RC}:STRUCT_RC_{code}', f'struct size {getattr(sv, "size", None)} = RC_SIZE_MAP[{code}] = {sizes.get(code)}', ok, module=m)
         rep.ob('R-C06-RC', f'{RC}:READ_BYTES_DESPATCH_MAP', f'code {code} readable from bytes', code in rb, module=m)
+        # frame values are decoded through this table (FrameSet.setFrameBytes -> RepCode.readBytes): each code goes to its own reader
+        v = rb.get(code)
+        q = v.qname.split(':')[-1] if hasattr(v, 'qname') else repr(v)
+        rep.ob('R-C06-RC', f'{RC}:READ_BYTES_DESPATCH_MAP', f'code {code} is decoded by {q}', q == f'readBytes{code}', found=q,
+               required=f'readBytes{code}', module=m)
     ls = ix.get_func(RC, 'lisSize')
     ok = any(_n(r.value) == f'RC_SIZE_MAP[{ls.args.args[0].arg}]' for r in common.returns_of(ls))
     rep.ob('R-C06-RC', f'{RC}:lisSize', 'lisSize looks the size up in RC_SIZE_MAP', ok, node=ls, module=m)
